@@ -35,7 +35,14 @@ pub enum Msg {
 }
 
 fn hash_of_fill(f: u8) -> Vec<u8> {
-    (0..32u8).map(|i| f.wrapping_add(i.wrapping_mul(7)) | 1).collect()
+    match f {
+        // the hash of a blank tree slot (all zero), nearly-zero hashes, all ones
+        0 => vec![0u8; 32],
+        1 => (0..32u8).map(|i| (i == 31) as u8).collect(),
+        2 => (0..32u8).map(|i| (i == 0) as u8).collect(),
+        255 => vec![0xffu8; 32],
+        _ => (0..32u8).map(|i| f.wrapping_add(i.wrapping_mul(7)) | 1).collect(),
+    }
 }
 fn bytes_of(len: u32, fill: u8) -> Vec<u8> {
     (0..len).map(|i| fill.wrapping_add(i as u8)).collect()
@@ -276,7 +283,7 @@ fn len_strategy() -> impl Strategy<Value = u32> {
     ]
 }
 fn wnode_strategy() -> impl Strategy<Value = WNode> {
-    (int_strategy(), int_strategy(), any::<u8>()).prop_map(|(index, length, fill)| WNode { index, length, fill })
+    (int_strategy(), int_strategy(), prop_oneof![12 => any::<u8>(), 1 => Just(0u8), 1 => 1u8..3, 1 => Just(255u8)]).prop_map(|(index, length, fill)| WNode { index, length, fill })
 }
 fn wnodes() -> impl Strategy<Value = Vec<WNode>> {
     prop_oneof![
